@@ -112,7 +112,7 @@ def check_C04(tier, seed):
             c.mc_phase("GvtRound.tla", "GvtRound_3.cfg", "3 threads, 3 messages, 1 round", workers=16, timeout=1800, heap="8g")
         c.run(_models(tier, seed, ["mixed", "fanout", "zerodelay", "ties"], 4, 24, "small", "medium"), 5 if tier == "quick" else 12, emphasis=em)
         # rollback cascades that outlast a GVT round: one anti-message per hop walking through the LPs of two threads
-        cem = lambda r: {"period": 0, "skew": r.choice([0, 0, 100, 300]), "policy": r.choice([0, 0, 2]), "ckpt": r.choice([1, 2, 0])}
+        cem = lambda r: {"period": 0, "skew": r.choice([0, 0, 100, 300]), "ckpt": r.choice([1, 2, 0])}
         c.run(_models(tier, seed + 9, ["chain"], 5, 40, "small", "medium"), 6 if tier == "quick" else 14, emphasis=cem)
         c.run(_models(tier, seed + 50, ["mixed", "fanout", "zerodelay"], 3, 15), 6 if tier == "quick" else 14, emphasis=DIST_EM)
         return c.finish()
